@@ -380,7 +380,7 @@ pub fn observe(toks: &[&str]) -> String {
 /// Where the per-case trees live.  The histories create, load and save a few small UFOs each; on a
 /// disk-backed scratch directory the file-system latency dominates (20x), so a memory-backed
 /// directory is used when there is one; otherwise the scratch root of the check.
-fn case_root() -> PathBuf {
+pub(crate) fn case_root() -> PathBuf {
     let shm = Path::new("/dev/shm");
     if shm.is_dir() {
         let p = shm.join(format!("verif-c16-{}", std::process::id()));
